@@ -501,11 +501,9 @@ static void neighCase(Rng& r, Ctx& c)
     case 5:
     {
       g.faults.reset(new Faults());
-      double ox = sc.data[0].x[0] - std::fmod(sc.data[0].x[0], 1.), oy = sc.data[0].x[1] - std::fmod(sc.data[0].x[1], 1.);
       // the point cloud lives in [off, off+100]^2: find its lower corner from the data
       double lox = 1e300, loy = 1e300;
       for (auto& p_ : sc.data) { lox = std::min(lox, p_.x[0]); loy = std::min(loy, p_.x[1]); }
-      (void)ox; (void)oy;
       int nf = r.irange(1, 3);
       for (int f = 0; f < nf; f++)
       {
@@ -611,6 +609,8 @@ static void neighCase(Rng& r, Ctx& c)
       if (t.res.quotaBites) c.probe("quota-bites");
       if (t.res.sel.empty() && !t.res.cands.empty()) c.probe("below-nmini");
       if (t.res.partialRound) c.probe("partial-round");
+      if (t.res.nFaultSplit > 0) c.probe("fault-splits-a-pair");
+      if (gridTarget) c.probe("grid-target");
     }
     refs.push_back(t);
   }
